@@ -3,7 +3,7 @@
 One JSON document per definition; TLC reads it through Json!ndJsonDeserialize (objects become
 records, arrays sequences), the harness builds the real bpaf parser from the same text.  All
 record fields the specification touches are always present (TLC has no optional fields)."""
-import itertools, json, random
+import copy, itertools, json, random
 
 
 def leaf(id, kind, arity="one", shorts=(), longs=(), vt=None, env="", adj=False, guard=False,
@@ -16,7 +16,7 @@ def leaf(id, kind, arity="one", shorts=(), longs=(), vt=None, env="", adj=False,
             "shorts": list(shorts), "longs": list(longs),
             "letters": [s[1:] for s in shorts], "env": env, "adj": adj, "guard": guard,
             "hidden": hidden, "help": help or f"HELP-{id}", "catch": False,
-            "lchars": [list(l[2:]) for l in longs], "completer": []}
+            "lchars": [list(l[2:]) for l in longs], "completer": [], "metavar": f"MV{id.upper()}"}
 
 
 def sw(id, *names, **kw):
@@ -35,7 +35,8 @@ def ar(id, arity, vt, *names, **kw):
 
 
 def pos(id, arity="one", strict="any", vt="str"):
-    return {"id": id, "arity": arity, "strict": strict, "vt": vt, "help": f"HELP-{id}"}
+    return {"id": id, "arity": arity, "strict": strict, "vt": vt, "help": f"HELP-{id}", "metavar": f"MV{id.upper()}",
+            "hidden": False}
 
 
 NOTAIL = {"kind": "none"}
@@ -181,7 +182,7 @@ def conv_family(seed, n_defs, max_named=3, maxlen=3, budget=6000, extras=("dd", 
             t = tails_cycle[k % len(tails_cycle)]
             k += 1
             if t < len(POS_TAILS):
-                lvl = level(named, POS_TAILS[t], version=rnd.random() < 0.3, ftu=rnd.random() < 0.25)
+                lvl = level(named, copy.deepcopy(POS_TAILS[t]), version=rnd.random() < 0.3, ftu=rnd.random() < 0.25)
             else:
                 lvl = level(named, cmd_tail_variant(t - len(POS_TAILS), rnd), version=rnd.random() < 0.5, ftu=rnd.random() < 0.3)
             spells = rnd.choice([("sep", "eq"), ("sep", "glued"), ("sep", "eq", "glued"), ("eq",)])
@@ -376,7 +377,8 @@ def altf(id, wrap, *branches):
 
 
 def posm(id, vt="str"):
-    return {"kind": "pos", "id": id, "vt": vt, "arity": "one", "strict": "any", "help": f"HELP-{id}"}
+    return {"kind": "pos", "id": id, "vt": vt, "arity": "one", "strict": "any", "help": f"HELP-{id}",
+            "metavar": f"MV{id.upper()}", "hidden": False}
 
 
 def adjf(id, wrap, head, *members):
@@ -570,3 +572,79 @@ def prefix_cmd_family(seed, n):
         lvl = level([sw("t0", "-v")] if i % 3 else [], cmdtail(cmds, optional=bool(i % 2)))
         out.append(mkdef(f"pc{seed}_{i}", lvl, maxlen=2, extras=(), spells=("sep",), words=("1",)))
     return out
+
+
+
+# ---------------------------------------------------------------- help / documentation (C12, C16)
+def decorate_for_help(d, rnd, hostile=None):
+    """hidden parts, usage decorations, group headers and level texts; the item lists must not care"""
+    n = 0
+    for lvl in all_levels(d):
+        n += 1
+        tag = f"{d['id']}x{n}"
+        if rnd.random() < 0.7:
+            lvl["descr"] = f"DESCR-{tag}"
+        if rnd.random() < 0.5:
+            lvl["header"] = f"HEADER-{tag}"
+        if rnd.random() < 0.5:
+            lvl["footer"] = f"FOOTER-{tag}"
+        for f in lvl["named"]:
+            for it in field_leaves(f):
+                it["help"] = f"HELP-{tag}-{it['id']}"
+                it["metavar"] = f"MV{n}{it['id'].upper()}"
+            if f["kind"] in ("switch", "reqflag", "arg"):
+                r = rnd.random()
+                if r < 0.15:
+                    f["hidden"] = True
+                elif r < 0.3:
+                    f["hide_usage"] = True
+                elif r < 0.4:
+                    f["custom_usage"] = f"CUSTOM-{tag}"
+                elif r < 0.5:
+                    f["group_help"] = f"GROUP-{tag}-{f['id']}"
+            elif rnd.random() < 0.5:
+                f["group_help"] = f"GROUP-{tag}-{f['id']}"
+                # a group whose first member is hidden still lists the others
+                if f["kind"] == "alt" and rnd.random() < 0.6:
+                    for b in f["branches"]:
+                        if len(b["fields"]) > 1:
+                            b["fields"][0]["hidden"] = True
+        t = lvl["tail"]
+        if t["kind"] == "pos":
+            for p in t["items"]:
+                p["help"] = f"HELP-{tag}-{p['id']}"
+                p["metavar"] = f"MV{n}{p['id'].upper()}"
+        if t["kind"] == "cmd":
+            for c in t["cmds"]:
+                c["help"] = f"HELP-{tag}-cmd-{c['names'][0]}"
+        for f in lvl["named"]:
+            if f["kind"] == "adj":
+                for m in f["members"]:
+                    if m["kind"] == "pos":
+                        m["help"] = f"HELP-{tag}-{m['id']}"
+                        m["metavar"] = f"MV{n}{m['id'].upper()}"
+    return d
+
+
+def help_family(seed, n):
+    rnd = random.Random(seed)
+    fam = conv_family(seed, n // 3, max_named=4, maxlen=2, budget=10**9) + cmd_family(seed + 1, n // 3, depth=3, maxlen=2, budget=10**9) \
+        + alt_family(seed + 2, n // 6, maxlen=2, budget=10**9) + adj_family(seed + 3, n - 2 * (n // 3) - n // 6, maxlen=2, budget=10**9)
+    fam = [decorate_for_help(d, rnd) for d in fam]
+    # the same visible name in two alternatives, differing in kind / metavariable (optional-value idiom)
+    for i in range(max(2, n // 20)):
+        a = ar("j0", "one", "str", "--jobs", adj=True)
+        b = rf("j1", "one", "--jobs")
+        c = ar("k0", "one", "str", "--from")
+        e = ar("k1", "one", "int", "--from")
+        for x in (a, b):
+            x["help"] = f"HELP-dup{i}-jobs"
+        for x in (c, e):
+            x["help"] = f"HELP-dup{i}-from"
+        a["metavar"], c["metavar"], e["metavar"] = "MVJN", "MVURL", "MVFILE"
+        branches = [branch(a), branch(b)] if i % 2 == 0 else [branch(b), branch(a)]
+        g1 = altf("g0", "opt", *branches)
+        g2 = altf("g1", "opt", branch(c), branch(e))
+        d = mkdef(f"dup{seed}_{i}", level([sw("o1", "-v"), g1, g2] if i % 3 else [g2, g1]), maxlen=1)
+        fam.append(d)
+    return fam
